@@ -277,5 +277,161 @@ def run(rd, emit, log, enum_values, ti_default):
         if val is None:
             log.append('C18: %s not recognised (compared only)' % what)
         body += 'Definition %s : option bool := %s.\n' % (nm, 'None' if val is None else ('Some true' if val else 'Some false'))
+    # ---- round 5: the field tables SerializeObjectAttrs selects from (attribute dimension of the read path).  For every
+    # type the object query can serialise in the model (primary: Host, Service; joined: + CheckCommand, EventCommand,
+    # TimePeriod, Endpoint): all fields in field-id order (base class first) with the flags the handler tests -
+    # (name, navigation name, (config, (state, (navigation, (no_user_view, getter returns another config object))))).
+    import glob as _glob
+    ti_classes = {}          # class -> (parent, [(name, navname, attrs, type)])
+    def _strip_code(t):
+        return re.sub(r'\{\{\{.*?\}\}\}', '', strip_comments(t), flags=re.S)
+    for f in sorted(_glob.glob(os.path.join(repo, 'lib', '**', '*.ti'), recursive=True)):
+        try:
+            t = _strip_code(open(f, encoding='utf-8', errors='replace').read())
+        except OSError:
+            continue
+        for m in re.finditer(r'\bclass\s+(\w+)\s*(?::\s*(\w+))?\s*(?:<\s*\w+\s*)?\{', t):
+            depth, k = 1, m.end()
+            while k < len(t) and depth:
+                if t[k] == '{': depth += 1
+                elif t[k] == '}': depth -= 1
+                k += 1
+            cb = t[m.end():k - 1]
+            # statements at depth 0 of the class body
+            stmts, cur, depth = [], '', 0
+            for ch in cb:
+                if ch == '{': depth += 1
+                if ch == '}': depth -= 1
+                if depth == 0 and ch in ';}':
+                    if ch == ';' and cur.strip():
+                        stmts.append(cur.strip())
+                    elif ch == '}' and cur.strip():
+                        stmts.append(re.sub(r'\{.*$', '', cur, flags=re.S).strip())
+                    cur = ''
+                else:
+                    cur += ch
+            fields = []
+            for st in stmts:
+                st = re.sub(r'\{.*$', '', st, flags=re.S).strip()
+                fm = re.match(r'(?:\[([^\]]*)\]\s*)?((?:array\s*\(\s*)?(?:name\s*\(\s*\w+\s*\)|"[^"]*"|[\w:]+)(?:\s*\))?)\s+("?[\w*]+"?)\s*(?:\(\s*\w+\s*\))?$', st)
+                if not fm or st.startswith(('load_after', 'activation_priority')):
+                    continue
+                attrs = [x.strip() for x in (fm.group(1) or '').split(',') if x.strip()]
+                name = fm.group(3).strip('"')
+                nav = [x for x in attrs if x == 'navigation' or x.startswith('navigation(')]
+                navname = ''
+                if nav:
+                    mm = re.match(r'navigation\((\w+)\)', nav[0])
+                    navname = mm.group(1) if mm else name
+                fields.append((name, navname, attrs, re.sub(r'\s+', '', fm.group(2))))
+            ti_classes[m.group(1)] = (m.group(2), fields)
+    def _is_config_class(c):
+        seen = 0
+        while c and seen < 12:
+            if c == 'ConfigObject':
+                return True
+            c = ti_classes.get(c, (None, []))[0]
+            seen += 1
+        return False
+    def field_table(cls):
+        chain_, cur, seen = [], cls, 0
+        while cur in ti_classes and seen < 12:
+            chain_.append(cur)
+            cur = ti_classes[cur][0]
+            seen += 1
+        if not chain_ or chain_[-1] != 'ConfigObjectBase':
+            return None
+        out = []
+        # the root of every chain is Object, whose reflection data is hand-written (lib/base/objecttype.cpp)
+        ot = strip_comments(rd('lib/base/objecttype.cpp'))
+        om = re.search(r'Field\s+ObjectType::GetFieldInfo\s*\([^)]*\)\s*const\s*\{(.*?)\n\}', ot, flags=re.S)
+        oc = re.search(r'int\s+ObjectType::GetFieldCount\s*\(\s*\)\s*const\s*\{\s*return\s+(\d+)\s*;', ot)
+        ofs = re.findall(r'return\s*\{\s*\d+\s*,\s*"(\w+)"\s*,\s*"(\w+)"\s*,\s*(\w+|"\w+")\s*,\s*(\w+|"\w+")\s*,\s*(\d+)\s*,', om.group(1)) if om else []
+        if not oc or len(ofs) != int(oc.group(1)):
+            return None
+        for ty, name, navn, _ref, at in ofs:
+            at = int(at)
+            out.append((name, navn.strip('"') if at & 512 else '', bool(at & 2), bool(at & 4), bool(at & 512), bool(at & 2048), False))
+        for c in reversed(chain_):
+            for name, navname, attrs, ty in ti_classes[c][1]:
+                mo = re.fullmatch(r'(\w+)::Ptr', ty)
+                objval = bool(mo and _is_config_class(mo.group(1)))
+                out.append((name, navname, 'config' in attrs, 'state' in attrs, bool(navname), 'no_user_view' in attrs, objval))
+        return out
+    cb_ = lambda b_: 'true' if b_ else 'false'
+    rows = []
+    for cls in ('Host', 'Service', 'CheckCommand', 'EventCommand', 'TimePeriod', 'Endpoint'):
+        ft = field_table(cls)
+        if ft is None:
+            log.append('C18: field table of %s not recognised (compared only)' % cls)
+            continue
+        rows.append('  (%s, [\n%s])' % (zl(cls), ';\n'.join(
+            '    (%s, (%s, (%s, (%s, (%s, (%s, %s))))))' % (zl(n), zl(nn), cb_(c), cb_(s_), cb_(nv), cb_(h), cb_(ov))
+            for n, nn, c, s_, nv, h, ov in ft)))
+    body += ('(* field tables: (type, [(field, (navigation name, (config, (state, (navigation, (no_user_view, object-valued getter))))))]) *)\n'
+             'Definition f_pm_field_tables : list (list Z * list (list Z * (list Z * (bool * (bool * (bool * (bool * bool))))))) := [\n%s\n].\n' % ';\n'.join(rows))
+    # ---- SerializeObjectAttrs: both hide tests sit in the loop over the SELECTED field ids (the one that emplaces into the
+    # result), so that they apply to every request shape, not only to the enumeration of all fields
+    sa = None
+    oq = strip_comments(rd('lib/remote/objectqueryhandler.cpp'))
+    m = re.search(r'ObjectQueryHandler::SerializeObjectAttrs\s*\(', oq)
+    if m:
+        i = oq.find('{', oq.find(')', m.end()))
+        depth, k = 1, i + 1
+        while k < len(oq) and depth:
+            if oq[k] == '{': depth += 1
+            elif oq[k] == '}': depth -= 1
+            k += 1
+        sb_ = oq[i + 1:k - 1]
+        lm = re.search(r'for\s*\(\s*int\s+fid\s*:\s*fids\s*\)\s*\{', sb_)
+        if lm:
+            depth, k = 1, lm.end()
+            while k < len(sb_) and depth:
+                if sb_[k] == '{': depth += 1
+                elif sb_[k] == '}': depth -= 1
+                k += 1
+            loop = re.sub(r'\s+', ' ', sb_[lm.end():k - 1])
+            em = re.search(r'resultAttrs\s*\.\s*(?:emplace_back|push_back)\s*\(', loop)
+            h1 = re.search(r'if \(\s*field\.Attributes & FANoUserView\s*\) continue;', loop)
+            h2 = re.search(r'if \(\s*field\.Attributes & FANavigation && !\s*\(\s*field\.Attributes & \(\s*FAConfig \| FAState\s*\)\s*\)\s*\) continue;', loop)
+            other_emit = re.findall(r'resultAttrs\s*\.\s*(?:emplace_back|push_back|insert)\s*\(', sb_)
+            if em and len(other_emit) == 1:
+                if h1 and h2 and h1.start() < em.start() and h2.start() < em.start():
+                    sa = True
+                elif (not re.search(r'FANoUserView', loop)) or (not re.search(r'FANavigation', loop)):
+                    sa = False      # recognisably different: a hide test is missing from the loop that emits
+    if sa is None:
+        log.append('C18: hide tests of SerializeObjectAttrs not recognised (compared only)')
+    body += 'Definition f_pm_attrs_hide_in_emit_loop : option bool := %s.\n' % ('None' if sa is None else ('Some true' if sa else 'Some false'))
+    # ---- round 5 (e): check-then-act.  Between `objs = GetFilterTargets(..)` and the end of HandleRequest the handler works on the
+    # pointers it was given: the loop variable is a const reference over objs, is never assigned, and nothing looks an object up by
+    # name again (GetObject / GetByName / GetByNamePair / GetTargetByName / GetObjects).  Some false = recognisably re-resolving.
+    def act_fact(name, fname, act_res):
+        nonlocal body
+        src = strip_comments(rd('lib/remote/' + fname))
+        b_ = handle_body(src)
+        val = None
+        if b_:
+            g = re.search(r'objs\s*=\s*FilterUtility::GetFilterTargets\s*\(\s*qd\s*,\s*params\s*,\s*user\s*\)', b_)
+            if g:
+                rest = b_[g.end():]
+                loop = re.search(r'for\s*\(\s*(const\s+)?ConfigObject::Ptr\s*(&?)\s*(\w+)\s*:\s*objs\s*\)', rest)
+                if loop:
+                    var = loop.group(3)
+                    lookups = re.search(r'\b(?:GetObject|GetByName|GetByNamePair|GetTargetByName|GetObjects|GetObjectByName)\s*(?:<[^>]*>)?\s*\(', rest[loop.end():])
+                    assigned = re.search(r'(?<![\w.>])' + re.escape(var) + r'\s*=(?!=)', rest[loop.end():])
+                    acts = [re.search(r, rest[loop.end():]) for r in act_res]
+                    on_var = all(a_ is not None for a_ in acts)
+                    if lookups or assigned:
+                        val = False
+                    elif loop.group(1) and loop.group(2) and on_var:
+                        val = True
+        if val is None:
+            log.append('C18: act-on-authorised-pointer structure of %s not recognised (compared only)' % name)
+        body += 'Definition f_pm_%s_acts_on_pointer : option bool := %s.\n' % (name, 'None' if val is None else ('Some true' if val else 'Some false'))
+    act_fact('query', 'objectqueryhandler.cpp', [r'SerializeObjectAttrs\s*\(\s*obj\s*,'])
+    act_fact('modify', 'modifyobjecthandler.cpp', [r'\bobj\s*->\s*ModifyAttribute\s*\(', r'\bobj\s*->\s*RestoreAttribute\s*\('])
+    act_fact('delete', 'deleteobjecthandler.cpp', [r'ConfigObjectUtility::DeleteObject\s*\(\s*obj\s*,'])
+    act_fact('actions', 'actionshandler.cpp', [r'->\s*Invoke\s*\(\s*obj\s*,'])
     body += 'Definition f_pm_join_cache_text : string := "%s"%%string.\n' % ('%s; %s' % (ck_text, tk_text)).replace('"', '')
     emit('Facts_c18.v', body)
